@@ -221,7 +221,7 @@ def check_spec(h, text, cells, ch0, spec, entry):
     except Exception as e:  # noqa
         return [('spec-wrong-error', '%s raised %s: %s' % (what, type(e).__name__, e))]
     bad = []
-    if model.canon_hash(v) != ch0:
+    if not model.unchanged(v, ch0):
         bad.append(('spec-mutates', '%s changed the receiver' % what))
     if 'error-or-plain' in wants:
         return bad
@@ -345,9 +345,9 @@ def run_task(task, acc):
     h = spec_values(acc.seed)[task['value']]
     v = build(h)
     text, cells = model.alpha_codes(v)
-    ch0 = model.canon_hash(v)
+    ch0 = model.freeze_value(v)
     if task['part'] == 0:
-        acc.state(ch0)
+        acc.state(model.canon_hash(v))
     entries = ['format', 'to_str', 'str_to_str', 'fstring', 'str_format']
     for i, spec in enumerate(all_specs(len(text))):
         if i % 4 != task['part']:
@@ -377,7 +377,7 @@ def replay(case):
     if case['kind'] == 'pad':
         kind, width, fill, inplace, extend, twin = case['op']
         return check_pad(h, text, cells, kind, width, fill, inplace, extend, twin=twin)
-    return check_spec(h, text, cells, model.canon_hash(v), case['spec'], case['entry'])
+    return check_spec(h, text, cells, model.freeze_value(v), case['spec'], case['entry'])
 
 
 def describe(tier, seed):
